@@ -318,6 +318,63 @@ pub fn main(args: &[String]) {
             h.w_eq = 4;
             hist_cases(&mut out, &mut rng, &h, cases, &mut |_, _| "inc".to_string());
         }
+        "lattice_hist" => {
+            // order-free types: any delivery order, duplicates, merges, snapshots (C11, and C01/C02/C03/C08/C09 for these types)
+            let per = (cases + 5) / 6;
+            let mk = |ty: &'static str| {
+                let mut h = Hist::new(ty, Disc::Any);
+                h.w_merge = 12;
+                h.w_snap = 8;
+                h.w_dup = 8;
+                h.w_validate = 3;
+                h.w_vmerge = 2;
+                h.w_eq = 3;
+                h
+            };
+            hist_cases(&mut out, &mut rng, &mk("gcounter"), per, &mut |r, _| {
+                if r.chance(1, 2) { "inc".to_string() } else { format!("incmany {}", r.below(5)) }
+            });
+            hist_cases(&mut out, &mut rng, &mk("pncounter"), per, &mut |r, _| match r.below(4) {
+                0 => "inc".to_string(),
+                1 => "dec".to_string(),
+                2 => format!("incmany {}", r.below(5)),
+                _ => format!("decmany {}", r.below(5)),
+            });
+            hist_cases(&mut out, &mut rng, &mk("gset"), per, &mut |r, _| format!("ins {}", r.below(5)));
+            let mut step = 0u64;
+            hist_cases(&mut out, &mut rng, &mk("lwwreg"), per, &mut |r, rep| {
+                step += 1;
+                // unique markers: (random high part, step, replica) – not monotone in time on purpose
+                format!("write {} {}", r.below(4), (r.below(6) as u64) * 10000 + step * 8 + rep as u64)
+            });
+            hist_cases(&mut out, &mut rng, &mk("maxreg"), per, &mut |r, _| format!("write {}", r.below(9)));
+            hist_cases(&mut out, &mut rng, &mk("minreg"), per, &mut |r, _| format!("write {}", 995 + r.below(9)));
+        }
+        "lww_conflict" => {
+            // deliberately reused markers: validate_op / validate_merge must flag equal marker + different value, only
+            for _ in 0..cases {
+                let n = 2 + rng.below(2);
+                writeln!(out, "T lwwreg {}", n).unwrap();
+                for i in 0..(3 + rng.below(6)) {
+                    let r = rng.below(n);
+                    match rng.below(4) {
+                        0 | 1 => writeln!(out, "G {} o{} write {} {}", r, i, rng.below(3), 1 + rng.below(3)).unwrap(),
+                        2 => {
+                            if i > 0 {
+                                let j = rng.below(i);
+                                writeln!(out, "V {} o{}", r, j).unwrap();
+                                writeln!(out, "D {} o{}", r, j).unwrap();
+                            }
+                        }
+                        _ => {
+                            let r2 = rng.below(n);
+                            writeln!(out, "VM {} {}", r, r2).unwrap();
+                            writeln!(out, "M {} {}", r, r2).unwrap();
+                        }
+                    }
+                }
+            }
+        }
         _ => {
             eprintln!("unknown profile {profile}");
             std::process::exit(2);
